@@ -126,6 +126,9 @@ type Path struct {
 	stdoutV    []value
 	stdoutMark int
 	itoaN      int
+	model      map[*Term]uint64 // a model of the current path condition (nil = none)
+	memo       map[*Term]*Term
+	modelHits  int
 	params     map[string]int
 	zones      []string
 	zonePtr    []*value
@@ -194,6 +197,13 @@ func (p *Path) take(t *Term) {
 	p.known[t] = true
 	p.pc = append(p.pc, t)
 	p.sess.Assert(t)
+	if p.model != nil {
+		// keep the cached model only if it satisfies the new literal; new
+		// variables (absent from the model) make it unusable too
+		if r := p.ts.evalUnder(t, p.model, p.memo); r == nil || !r.isC || !r.boolVal() {
+			p.model, p.memo = nil, nil
+		}
+	}
 }
 
 func (p *Path) feasible(t *Term) Result {
@@ -216,6 +226,38 @@ func (p *Path) feasible(t *Term) Result {
 	return r
 }
 
+// modelSays evaluates c under the cached model of the path condition.
+func (p *Path) modelSays(c *Term) (val bool, ok bool) {
+	if p.model == nil {
+		return false, false
+	}
+	r := p.ts.evalUnder(c, p.model, p.memo)
+	if r == nil || !r.isC {
+		return false, false
+	}
+	return r.boolVal(), true
+}
+
+// feasibleM is feasible() that also fetches a model when the answer is sat.
+func (p *Path) feasibleM(t *Term) (Result, map[*Term]uint64) {
+	if p.sess.nqueries > p.w.ex.opt.MaxQueries {
+		p.abort(abBudget, "solver-query budget of the path exhausted (unbounded symbolic loop?)")
+	}
+	if t.isC {
+		if t.boolVal() {
+			return Sat, nil
+		}
+		return Unsat, nil
+	}
+	if p.known[t] {
+		return Sat, nil
+	}
+	if p.known[p.ts.Not(t)] {
+		return Unsat, nil
+	}
+	return p.sess.CheckWith([]*Term{t}, p.ts.vars)
+}
+
 // decide forks on a symbolic condition and returns the branch taken.
 func (p *Path) decide(c *Term) bool {
 	if c.isC {
@@ -234,13 +276,33 @@ func (p *Path) decide(c *Term) bool {
 		p.decis = append(p.decis, d)
 		if d == 1 {
 			p.take(c)
-			return true
+		} else {
+			p.take(nc)
 		}
-		p.take(nc)
-		return false
+		// a replayed literal may contradict the cached model
+		if p.model != nil {
+			if v, ok := p.modelSays(c); !ok || v != (d == 1) {
+				p.model, p.memo = nil, nil
+			}
+		}
+		return d == 1
 	}
-	ft := p.feasible(c)
-	ff := p.feasible(nc)
+	var ft, ff Result
+	var mt, mf map[*Term]uint64
+	if v, ok := p.modelSays(c); ok {
+		// the current model already witnesses one side
+		p.modelHits++
+		if v {
+			ft = Sat
+			ff, mf = p.feasibleM(nc)
+		} else {
+			ff = Sat
+			ft, mt = p.feasibleM(c)
+		}
+	} else {
+		ft, mt = p.feasibleM(c)
+		ff, mf = p.feasibleM(nc)
+	}
 	if ft == Unknown || ff == Unknown {
 		// keep both sides; an unknown side is explored and, if it is really
 		// infeasible, its assertions are vacuous but never wrong.
@@ -252,20 +314,42 @@ func (p *Path) decide(c *Term) bool {
 		}
 		p.incon = append(p.incon, "branch feasibility unknown")
 	}
+	setModel := func(m map[*Term]uint64) {
+		if m != nil {
+			p.model, p.memo = m, map[*Term]*Term{}
+		} else if v, ok := p.modelSays(c); !ok || !v {
+			_ = v
+		}
+	}
 	switch {
 	case ft == Sat && ff == Sat:
 		alt := append(append([]int64{}, p.decis...), 0)
 		p.pending = append(p.pending, alt)
 		p.decis = append(p.decis, 1)
 		p.take(c)
+		if mt != nil {
+			setModel(mt)
+		} else if v, ok := p.modelSays(c); !ok || !v {
+			p.model, p.memo = nil, nil
+		}
 		return true
 	case ft == Sat:
 		p.decis = append(p.decis, 1)
 		p.take(c)
+		if mt != nil {
+			setModel(mt)
+		} else if v, ok := p.modelSays(c); !ok || !v {
+			p.model, p.memo = nil, nil
+		}
 		return true
 	case ff == Sat:
 		p.decis = append(p.decis, 0)
 		p.take(nc)
+		if mf != nil {
+			setModel(mf)
+		} else if v, ok := p.modelSays(nc); !ok || !v {
+			p.model, p.memo = nil, nil
+		}
 		return false
 	}
 	p.abort(abInfeasible, "both branches infeasible")
